@@ -103,24 +103,27 @@ RECURSIVE ProdSeq(_, _)
 ProdSeq(s, a) == IF a > Len(s) THEN 1 ELSE s[a] * ProdSeq(s, a + 1)
 
 Pairs(p) == {v \in (p.lo..p.hi) \X (p.lo..p.hi) : p.strict => v[1] < v[2]}       \* (start, stop)
-InnerCases(p) == UNION {
+\* cases of profile p with n axes (the parts for different p / n are disjoint and are concatenated as sequences:
+\* TLC's UNION of large sets of records is quadratic)
+InnerCasesN(p, n) ==
     {[kind |-> "inner", axes |-> [i \in 1..n |-> Axis(R(f[i][1]), R(f[i][2]), num)], snake |-> NoSnake(n)] :
-        f \in [1..n -> Pairs(p)], num \in 1..p.maxnum} : n \in p.nmin..p.nmax}
-OuterCases(p) == UNION {
+        f \in [1..n -> Pairs(p)], num \in 1..p.maxnum}
+OuterCasesN(p, n) ==
     {[kind |-> "outer", axes |-> [i \in 1..n |-> Axis(R(x[1][i][1][1]), R(x[1][i][1][2]), x[1][i][2])], snake |-> x[2]] :
         x \in {y \in [1..n -> Pairs(p) \X (1..p.maxnum)] \X [1..n -> BOOLEAN] :
-                  ~y[2][1] /\ ProdSeq([i \in 1..n |-> y[1][i][2]], 1) <= p.maxtotal}} : n \in p.nmin..p.nmax}
+                  ~y[2][1] /\ ProdSeq([i \in 1..n |-> y[1][i][2]], 1) <= p.maxtotal}}
 X2XCases(p) ==
     {[kind |-> "x2x", axes |-> <<Axis(R(s), R(e), num), Axis(Norm(s, 2), Norm(e, 2), num)>>, snake |-> NoSnake(2)] :
         s \in p.lo..p.hi, e \in p.lo..p.hi, num \in 1..p.maxnum}
 LogCases(p) ==
     {[kind |-> "log", axes |-> <<Axis(R(s), R(e), num)>>, snake |-> NoSnake(1)] :
         s \in p.lo..p.hi, e \in p.lo..p.hi, num \in 1..p.maxnum}
-CasesOf(p) == CASE p.kind = "inner" -> InnerCases(p)
-                [] p.kind = "outer" -> OuterCases(p)
-                [] p.kind = "x2x" -> X2XCases(p)
-                [] p.kind = "log" -> LogCases(p)
-Domain == UNION {CasesOf(p) : p \in Profiles}
+CasesN(p, n) == CASE p.kind = "inner" -> InnerCasesN(p, n)
+                  [] p.kind = "outer" -> OuterCasesN(p, n)
+                  [] p.kind = "x2x" -> X2XCases(p)
+                  [] p.kind = "log" -> LogCases(p)
+SeqOfProfile(p) == FlattenSeq([m \in 1..(p.nmax - p.nmin + 1) |-> SetToSeq(CasesN(p, p.nmin + m - 1))])
+DomSeq == LET ps == SetToSeq(Profiles) IN FlattenSeq([k \in 1..Len(ps) |-> SeqOfProfile(ps[k])])
 
 Prof(k, a, b, lo, hi, mn, mt, st) ==
     [kind |-> k, nmin |-> a, nmax |-> b, lo |-> lo, hi |-> hi, maxnum |-> mn, maxtotal |-> mt, strict |-> st]
@@ -138,7 +141,6 @@ ProfilesNone == {}
 
 \* The cases are the successors of NBlocks initial "block" states: TLC computes initial states in one thread but
 \* expands different states in different workers.
-DomSeq == SetToSeq(Domain)
 NBlocks == 64
 NoCase == [kind |-> "none", axes |-> <<>>, snake |-> <<>>]
 IsCase == blk = 0
@@ -239,5 +241,5 @@ Row(c) == LET p == Points(c) n == NAx(c) IN
            must |-> [t \in 1..Len(p) |-> [i \in 1..n |-> Must(p, t, i)]],
            pat |-> [j \in 1..Len(PointMsgs(p, n, 1)) |-> PointMsgs(p, n, 1)[j].c],
            md |-> Md(c)]
-DumpCases == TLCGet("stats").generated >= 0 /\ ndJsonSerialize(IOEnv.CASES_OUT, SetToSeq({Row(c) : c \in Domain}))
+DumpCases == TLCGet("stats").generated >= 0 /\ ndJsonSerialize(IOEnv.CASES_OUT, [j \in 1..Len(DomSeq) |-> Row(DomSeq[j])])
 =============================================================================
